@@ -159,9 +159,22 @@ func (eval *Evaluator) BlindRotateCore(a []uint64, acc *rlwe.Ciphertext, BRK Bli
 		}
 	}
 
-	// Line 10 (0 in the negative set is 2N)
-	if _, err = eval.evaluateFromDiscreteLogSets(GaloisElement, discreteLogSets, eval.paramsBR.N()<<1, 0, acc, BRK); err != nil {
-		return
+	// Line 10 (a[i] = -g^0 = 2N-1, stored under the key 2N): no power of g follows this class, so the
+	// pending automorphism is applied first and v is not incremented.
+	if set, ok := discreteLogSets[eval.paramsBR.N()<<1]; ok {
+		if v != 0 {
+			if err = eval.Automorphism(acc, GaloisElement(v), acc); err != nil {
+				return
+			}
+			v = 0
+		}
+		for _, j := range set {
+			var brk *rgsw.Ciphertext
+			if brk, err = BRK.GetBlindRotationKey(j); err != nil {
+				return
+			}
+			eval.ExternalProduct(acc, brk, acc)
+		}
 	}
 
 	// Line 12
@@ -251,6 +264,10 @@ func getGaloisElementInverseMap(GaloisGen uint64, N int) (GaloisGenDiscreteLog m
 		pow &= mask
 	}
 
+	// -g^0 = 2N-1: "-0" would put it in the class of +g^0; BlindRotateCore reads this class under the key 2N
+	/* #nosec G115 -- twoN is greater than zero */
+	GaloisGenDiscreteLog[uint64(twoN)-1] = twoN
+
 	return
 }
 
@@ -265,6 +282,11 @@ func (eval *Evaluator) getDiscreteLogSets(a []uint64) (discreteLogSets map[int][
 
 		if ai&1 != 1 && ai != 0 {
 			panic("getDiscreteLogSets: a[i] is not odd and thus not an element of Z_{2N}^{*} -> a[i] = (+/- 1) * g^{k} does not exist.")
+		}
+
+		// a[i] = 0 contributes X^{0*s[i]} = 1 (a missing map key would read as the class of +g^0)
+		if ai == 0 {
+			continue
 		}
 
 		dlog := GaloisGenDiscreteLog[ai]
